@@ -883,7 +883,9 @@ func (g *lgen) val() Val {
 	case 1:
 		return vStr(listStrings[rapid.IntRange(0, len(listStrings)-1).Draw(g.rt, "str")])
 	case 2:
-		return vNum(float64(100000 + g.ctr))
+		// distinct values; some large enough that a %g-style rendering would switch to an exponent (concat must give digits)
+		scale := []float64{1, 1, 10, 1000, 1e6}[rapid.IntRange(0, 4).Draw(g.rt, "bigscale")]
+		return vNum(float64(100000+g.ctr) * scale)
 	case 3:
 		return vObj(rapid.IntRange(0, nObjs-1).Draw(g.rt, "obj"))
 	case 4:
